@@ -5,6 +5,6 @@ CONSTANTS
   Contexts = {1, 2, 3, 4, 5, 6, 7, 8, 9}
   DeepContexts = {1}
   Export = TRUE
-  StmtDepth = 3
+  StmtDepth = 2
 INVARIANT Inv
 CHECK_DEADLOCK FALSE
